@@ -278,12 +278,21 @@ fn emit_logs(idx: usize, n: u16) {
         if let Some(id) = id {
             // every 5th line names its parent explicitly and is emitted from a foreign context
             // (a detached root span, as a helper thread or a spawned task would have)
-            if with_rs(|rs| rs.log_ctr) % 5 == 0 {
+            let n = with_rs(|rs| rs.log_ctr);
+            // message texts a program may well log: double underscores, and the words the
+            // integration itself uses as separators
+            let tail = match n % 7 {
+                2 => " resolved __typename of node",
+                4 => " state is __unknown for now",
+                6 => " dunder__in__the__middle__",
+                _ => "",
+            };
+            if n % 5 == 0 {
                 let here = tracing::Span::current();
                 let detached = tracing::info_span!(parent: None, "detached");
-                detached.in_scope(|| tracing::info!(parent: &here, "{id}"));
+                detached.in_scope(|| tracing::info!(parent: &here, "{id}{tail}"));
             } else {
-                tracing::info!("{id}");
+                tracing::info!("{id}{tail}");
             }
         }
     }
